@@ -41,8 +41,7 @@ Satisfies(o, line) ==
   /\ cs # {}
   /\ (o.guard = NoOps \/ \E c \in cs : Run(o.guard[2], c).oc = "ok")
 
-\* the tool hands only one candidate to a guard; sessions whose patterns can yield
-\* several candidates for one line are outside the judged class
+\* (sessions in which no pattern matches any line in more than one way)
 SingleCandidate(outs, lines) ==
   \A i \in DOMAIN outs, j \in DOMAIN lines : Cardinality(Cands(outs[i], lines[j])) <= 1
 
